@@ -27,9 +27,7 @@ def shards(tier, seed):
            {"name": "integers", "kind": "ints", "weight": 1}]
     ln = 3 if tier == "quick" else 4
     for first in ALPHA:
-        if tier == "quick" and first not in "Aa#":
-            continue
-        out.append({"name": "strings-" + first, "kind": "strings", "first": first if tier != "quick" else None,
+        out.append({"name": "strings-" + first, "kind": "strings", "first": first,
                     "group": first, "maxlen": ln, "weight": 6})
     for L in T.LETTERS:
         out.append({"name": "diatonic-" + L, "kind": "diatonic", "letter": L, "after_history": L in "CE", "k": 3 if tier == "quick" else 5,
